@@ -297,6 +297,30 @@ def asm_format_leg(ctx, rng, scratch, i):
         if len({x[1:] for x in named if x[0] == fmt_}) != 1:
             ctx.violation(f"asm-format-output-depends-on-working-directory:{fmt_}", f"{[x[2][:80] for x in named if x[0] == fmt_]}", {"kind": "asm-format", "asm": plain})
             break
+    # the same assembly given as AGP and as TPF (blank lines sprinkled between its lines; also as the second file
+    # after one of the other format) comes out as the same TPF
+    from vf.ref import tpf_ref
+
+    lines = tpf_ref.format(plain).splitlines(keepends=True)
+    if lines:
+        for _ in range(rng.randint(1, 4)):
+            lines.insert(rng.randint(1, len(lines)), rng.choice(["\n", "   \n", "\t\n"]))
+        pt_ = scratch / f"af{i}.tpf"
+        pt_.write_text("".join(lines))
+        a_ = cli_runs.run_asm_format([p, "-f", "TPF"])
+        t_ = cli_runs.run_asm_format([pt_, "-f", "TPF"])
+        both = cli_runs.run_asm_format([more[0], pt_, "-f", "TPF"])
+        first_ = cli_runs.run_asm_format([more[0], "-f", "TPF"])
+        as_agp = cli_runs.run_asm_format([pt_, "-f", "AGP"])
+        want_agp = agp_ref.format({"header": plain["header"], "scaffolds": [[n_, [r_ if r_[0] == "G" else [*r_[:5], []] for r_ in rows_]] for n_, rows_ in plain["scaffolds"]]})
+        pt_.unlink()
+        if (as_agp["exit_code"], as_agp["stdout"]) != (0, want_agp):
+            ctx.violation("asm-format-output-depends-on-input-format:tpf-with-blank-lines-to-agp", f"exit {as_agp['exit_code']}\n got {as_agp['stdout'][:300]!r}\nwant {want_agp[:300]!r}", {"kind": "asm-format", "asm": plain})
+        ctx.count("axis:asm-format-input-format")
+        if (a_["exit_code"], a_["stdout"]) != (t_["exit_code"], t_["stdout"]):
+            ctx.violation("asm-format-output-depends-on-input-format", f"AGP input: exit {a_['exit_code']} {a_['stdout'][:200]!r}\nTPF input: exit {t_['exit_code']} {t_['stdout'][:200]!r}", {"kind": "asm-format", "asm": plain})
+        elif (both["exit_code"], both["stdout"]) != (0 if not (first_["exit_code"] or t_["exit_code"]) else both["exit_code"], first_["stdout"] + t_["stdout"]):
+            ctx.violation("asm-format-output-depends-on-the-file-given-before", f"second of two files: exit {both['exit_code']}, {len(both['stdout'])} bytes; alone: {len(first_['stdout'])} + {len(t_['stdout'])} bytes", {"kind": "asm-format", "asm": plain})
     for q in files:
         q.unlink()
 
